@@ -102,6 +102,9 @@ func (x *Exec) intercept(st *State, fn *ssa.Function, args []*Term) ([]Outcome, 
 	if outs, ok := x.interceptIter(st, o.Name(), args); ok {
 		return outs, true
 	}
+	if outs, ok := x.interceptConc(st, o.Name(), args); ok {
+		return outs, true
+	}
 	return abortOut(st, "unknown verifspec function %s", o.Name()), true
 }
 
@@ -253,6 +256,12 @@ func (x *Exec) mergeOuts(st *State, outs []Outcome, resSort *Sort) (*Term, *Term
 	}
 	var brs []br
 	for _, o := range outs {
+		// cells allocated during the evaluation stay reachable through the merged value
+		for id, v := range o.st.cells {
+			if _, ok := st.cells[id]; !ok {
+				st.cells[id] = v
+			}
+		}
 		extra := c.And(o.st.pc[base:]...)
 		if len(o.st.facts) > baseF {
 			facts = c.And(facts, c.Implies(extra, c.And(o.st.facts[baseF:]...)))
@@ -408,6 +417,9 @@ func (x *Exec) unchanged(st *State) *Term {
 func (x *Exec) trusted(st *State, fn *ssa.Function, name string, args []*Term) ([]Outcome, bool) {
 	c := x.c
 	ret := func(v *Term) ([]Outcome, bool) { return []Outcome{{st: st, kind: ORet, val: v}}, true }
+	if outs, ok := x.concTrusted(st, fn, name, args); ok {
+		return outs, true
+	}
 	switch {
 	case name == "sort.Sort" || name == "sort.Stable":
 		return x.trustedSort(st, fn, args), true
